@@ -54,8 +54,13 @@ func VerifC03Faults(strategy, features, k int) {
 
 // VerifC07Wiring: with the breaker enabled, failed proxied requests are what
 // the breaker counts, and while it is open no backend is contacted.
-func VerifC07Wiring() {
-	lb, bs := verifFullLB(0, 1, verifFeatBreaker)
+func VerifC07Wiring(interim int) {
+	feats := verifFeatBreaker
+	if interim != 0 {
+		feats |= verifFeatInterim // the backend may send up to two interim 1xx responses before its final status
+	}
+	lb, bs := verifFullLB(0, 1, feats)
+	defer func() { verifNoInterim = true }()
 	f0, _, _ := lb.circuitBreaker.Counts()
 	rec := verifNewRecorder()
 	aborted, _ := verifServe(lb, rec, rec.finish, verifRequest("10.1.2.3:4711"))
@@ -132,6 +137,86 @@ func VerifC09GateAny(l int) {
 		}
 	}
 	verifrt.Assert(admitted <= 2, "no client attribution escapes the limiter: at most max_tokens of one client's simultaneous requests are forwarded")
+}
+
+// VerifC09IsolationAny: two clients whose X-Forwarded-For values are ANY two
+// different strings of l printable ASCII bytes without blanks or commas (so the
+// whole value is the client address: dotted, colon-separated, digits-only
+// suffixes, anything): after the first has used up its burst the second still
+// gets its own full burst.
+func VerifC09IsolationAny(l int) {
+	lb, bs := verifFullLB(0, 1, verifFeatLimiter)
+	verifForceOK = true
+	defer func() { verifForceOK = false }()
+	a := verifrt.String("clientA", l)
+	b := verifrt.String("clientB", l)
+	differ := false
+	for i := 0; i < l; i++ {
+		verifrt.Assume(a[i] > ' ' && a[i] < 0x7f && a[i] != ',')
+		verifrt.Assume(b[i] > ' ' && b[i] < 0x7f && b[i] != ',')
+		differ = verifrt.Or(differ, a[i] != b[i])
+	}
+	verifrt.Assume(differ)
+	send := func(xff string) bool {
+		r := verifRequest("10.1.2.3:4711")
+		r.Header.Set("X-Forwarded-For", xff)
+		rec := verifNewRecorder()
+		hits := verifProxyHits[bs[0].Name]
+		verifServe(lb, rec, rec.finish, r)
+		return verifProxyHits[bs[0].Name] > hits
+	}
+	for i := 0; i < 3; i++ {
+		send(a)
+	}
+	verifrt.Assert(send(b), "a client never seen before starts with a full burst, whatever another client with a different address did")
+}
+
+// VerifC09Wiring: the limiter as the balancer builds it from the configuration
+// (real validation, real setupRateLimiter): for every accepted rate_limit
+// section (max_tokens 1..3, refill_rate_seconds 1..3600) a new client gets
+// exactly max_tokens requests through at one instant, the next one is answered
+// 429 and not forwarded, and after k configured refill periods of silence
+// min(k, max_tokens) more are admitted.
+func VerifC09Wiring() {
+	cfg := &config.Config{}
+	cfg.Server.Port = 8080
+	cfg.Backends = []config.BackendConfig{{Name: "b0", Address: "http://b0:80"}}
+	cfg.RateLimit.Enabled = true
+	cfg.RateLimit.MaxTokens = verifrt.IntRange("max_tokens", 1, 3)
+	cfg.RateLimit.RefillRate = verifrt.IntRange("refill_rate_seconds", 1, 3600)
+	verifrt.Assume(cfg.Validate() == nil)
+	lb, bs := verifFullLB(0, 1, 0)
+	lb.setupRateLimiter(cfg)
+	verifForceOK = true
+	defer func() { verifForceOK = false }()
+	send := func() bool {
+		rec := verifNewRecorder()
+		hits := verifProxyHits[bs[0].Name]
+		verifServe(lb, rec, rec.finish, verifRequest("10.1.2.3:4711"))
+		fwd := verifProxyHits[bs[0].Name] > hits
+		verifrt.Assert(fwd == (rec.status != http.StatusTooManyRequests), "a request is forwarded exactly when it is not answered 429")
+		return fwd
+	}
+	admitted := 0
+	for i := 0; i < 4; i++ {
+		if send() {
+			admitted++
+		}
+	}
+	verifrt.Assert(admitted == cfg.RateLimit.MaxTokens, "a new client gets exactly the configured max_tokens through in a burst")
+	k := verifrt.IntRange("idlePeriods", 1, 3)
+	verifrt.Advance(time.Duration(k*cfg.RateLimit.RefillRate) * time.Second)
+	more := 0
+	for i := 0; i < 4; i++ {
+		if send() {
+			more++
+		}
+	}
+	want := k
+	if want > cfg.RateLimit.MaxTokens {
+		want = cfg.RateLimit.MaxTokens
+	}
+	verifrt.Assert(more == want, "after k configured refill periods of silence exactly min(k, max_tokens) more requests are admitted at once")
 }
 
 // VerifC03Timeouts: for every timeout configuration that validation accepts
